@@ -292,6 +292,16 @@ func binaryOperatorUniverse(p *Program, m *prattModel) (map[string]string, []str
 					u[t] = where
 				}
 			default:
+				// any other provenance the token-tag analysis of C01/R5 resolves (a consume-and-return
+				// helper called with constant tags, …)
+				if tok != nil {
+					if tags, _, ok := tokenValueTags(p, f, tok, a, 0); ok && len(tags) > 0 {
+						for _, t := range tags {
+							u[t] = where
+						}
+						return
+					}
+				}
 				problems = append(problems, where+": operator token of unrecognised provenance: "+tagR)
 			}
 		})
